@@ -53,6 +53,17 @@ func genC12(t *rapid.T) *closeCase {
 	delays := []int{0, 1, 100, 1000}
 	sc.FaultsC2S = genScript(t, "f_c2s", 60, delays)
 	sc.FaultsS2C = genScript(t, "f_s2c", 60, delays)
+	// an application that never reads: the receive buffer of that endpoint
+	// fills up with up to N packets and its receive loop waits to hand over
+	// the next one
+	switch rapid.IntRange(0, 5).Draw(t, "norecv") {
+	case 0:
+		sc.NoRecvC2S = true
+	case 1:
+		sc.NoRecvS2C = true
+	case 2:
+		sc.NoRecvC2S, sc.NoRecvS2C = true, true
+	}
 	c.Sc = sc
 	c.Transport = rapid.SampledFrom([]string{"ok", "ok", "silent"}).Draw(t, "transport")
 	at := rapid.SampledFrom([]int{0, 0, 1, 5, 20, 99, 100, 101, 300, 999, 1000, 1001, 2500, 7000}).Draw(t, "close_at")
@@ -97,6 +108,7 @@ func runC12(t *testing.T, c *closeCase) (res c12Result) {
 		var (
 			mu        sync.Mutex
 			closeDur  []time.Duration
+			hung      []string
 			firstAt   = map[string]time.Time{}
 			closeDone = map[string]time.Time{}
 			wg        sync.WaitGroup
@@ -151,7 +163,19 @@ func runC12(t *testing.T, c *closeCase) (res c12Result) {
 					firstAt[cc.Who] = t0
 				}
 				mu.Unlock()
-				_ = conn.Close()
+				returned := make(chan struct{})
+				go func() {
+					_ = conn.Close()
+					close(returned)
+				}()
+				select {
+				case <-returned:
+				case <-time.After(10 * time.Minute):
+					mu.Lock()
+					hung = append(hung, cc.Who)
+					mu.Unlock()
+					return
+				}
 				mu.Lock()
 				closeDur = append(closeDur, time.Since(t0))
 				closeDone[cc.Who] = time.Now()
@@ -159,6 +183,13 @@ func runC12(t *testing.T, c *closeCase) (res c12Result) {
 			}()
 		}
 		wg.Wait()
+		if len(hung) > 0 {
+			res.violation = fmt.Sprintf("Close called on the %s did not return within 10 minutes of virtual time", strings.Join(hung, " and the "))
+			// release whatever can still be released and stop here
+			env.CancelC()
+			env.CancelS()
+			return
+		}
 		mu.Lock()
 		for _, d := range closeDur {
 			if d > finSendTimeout+closeSlack {
@@ -279,7 +310,26 @@ func runC12(t *testing.T, c *closeCase) (res c12Result) {
 	if c.Transport == "silent" {
 		res.labels = append(res.labels, "transport_silent")
 	}
+	if sc.NoRecvC2S || sc.NoRecvS2C {
+		res.labels = append(res.labels, "application_never_reads")
+	}
 	return
+}
+
+// closeHangHook turns an engine freeze into a violation when the goroutine
+// dump shows why virtual time stopped: a Close call of the code under test is
+// waiting for the connection's goroutines (which never end), and further Close
+// callers wait on the sync.Once mutex behind it, which is not a durable block
+// for the virtual clock.
+func closeHangHook(rec *stats.Recorder, kind string, c any) func(string) {
+	return func(stacks string) {
+		for _, g := range strings.Split(stacks, "\n\n") {
+			if strings.Contains(g, "gbn.(*GoBackNConn).Close") && strings.Contains(g, "sync.(*WaitGroup).Wait") {
+				rec.FatalViolation("Close never returned: a Close call stayed in wg.Wait for the connection's goroutines until the watchdog fired (virtual time could not advance because other Close callers wait behind it):\n"+g,
+					kind, c)
+			}
+		}
+	}
 }
 
 func TestC12Close(t *testing.T) {
@@ -298,9 +348,11 @@ func TestC12Close(t *testing.T) {
 	if stats.ReplayMode() {
 		t.Skip()
 	}
+	defer func() { vnet.FreezeHook = nil }()
 	rapid.Check(t, func(rt *rapid.T) {
 		c := genC12(rt)
 		rec.Current("close", c)
+		vnet.FreezeHook = closeHangHook(rec, "close", c)
 		r := runC12(t, c)
 		rec.Case(r.nontrivial, fmt.Sprintf("%s|%+v|%s|%d", scKey(c.Sc), c.Closes, c.Transport, c.SilenceMs), r.labels...)
 		if r.nontrivial && rec.WantSample() {
